@@ -47,6 +47,10 @@ class DIB(ABC):
     def to_knx(self) -> bytes:
         """Serialize to KNX/IP raw data."""
 
+    def __eq__(self, other: object) -> bool:
+        """Equal operator."""
+        return type(self) is type(other) and self.__dict__ == other.__dict__
+
     @staticmethod
     def determine_dib(raw: bytes) -> DIB:
         """Determine dib type out of dib type code."""
